@@ -444,3 +444,83 @@ Proof.
       pose proof (lframe_updm_lists s2 k (fun m => m <| m_wait := Some q1 |> <| m_waited := true |>)) as LF.
       rewrite (updm_some _ _ _ _ Hm2) in LF. apply LF. intros m0. destruct m0; cbn. auto.
 Qed.
+
+(* ---------------------------------------------------------------- RemoveLock on a record that holds nothing (depth 0) *)
+Lemma occ_all_zero_nil (L : list ref) : (forall r0, occ r0 L = O) -> L = [].
+Proof. destruct L as [|x t]; auto. intros H. specialize (H x). rewrite occ_cons_eq in H. discriminate. Qed.
+
+Lemma remove_lock_dead_ginv s g k r l :
+  GInv s g -> g_dk g = k -> g_ph g = [] -> g_pre g = [] -> g_owe g = [] -> g_pw g = false -> g_lk g = false ->
+  aget (store s) r = Some l -> l_key l = k -> l_locked l = 0 ->
+  GInv (remove_lock s k r) g.
+Proof.
+  intros G Hk Hp Hq Ho Hpw Hlk Hr Hkey Hd.
+  destruct (rec_counts s g r l G Hr) as [[C1 [C2 [C3 C4]]] [m [Hm Hgm]]].
+  destruct (gi_rec _ _ G r l Hr) as [A1 A2 A3 A4 A5 A6 A7 A8 A9 A10 A11].
+  rewrite Hkey in *. rewrite Hgm in *.
+  destruct (gi_mgr _ _ G k m Hm) as [B1 B2 B3 B4 B5 B6 B7 B8 B9 Bb B10 Bc].
+  assert (Hlkk : lkk g k = false) by (unfold lkk; rewrite Hlk; apply andb_false_r).
+  specialize (B7 Hlkk). specialize (B8 Hlkk). specialize (B10 Hlkk).
+  set (l1 := l <| l_locked := 0 |> <| l_ack := 255 |>).
+  assert (G0 : GInv (setl s r l1) g).
+  { apply (setl_irrel s g r l l1 G Hr); [|intuition].
+    unfold same_rel, l1. destruct l; cbn in *. subst. intuition. }
+  pose proof (ginv_set_lk_true _ g G0) as G2.
+  unfold remove_lock. rewrite (updl_some _ _ _ _ Hr). fold l1. cbv zeta.
+  change (getm (setl s r l1) k) with (getm s k). rewrite (getm_some _ _ _ Hm).
+  assert (Hg1 : getl (setl s r l1) r = l1) by (rewrite getl_setl, N.eqb_refl; auto). rewrite Hg1.
+  set (s1 := setl s r l1) in *.
+  assert (Hm1 : aget (mgrs s1) k = Some m) by exact Hm.
+  assert (Hgl1 : forall x, x <> r -> getl s1 x = getl s x).
+  { intros x Hx. unfold s1. rewrite getl_setl. destruct (r =? x) eqn:E; auto. apply N.eqb_eq in E. congruence. }
+  assert (Hcr : forall c, m_cur m = Some c -> c <> r).
+  { intros c Hc ->. specialize (B7 r Hc). rewrite (getl_some _ _ _ Hr) in B7. lia. }
+  assert (Ecur : match m_cur m with Some c => c =? r | None => false end = false).
+  { destruct (m_cur m) as [c|] eqn:Ec; auto. apply N.eqb_neq. apply Hcr; auto. }
+  rewrite Ecur.
+  assert (Gres : GInv s1 g) by exact G0.
+  destruct (m_locks m) as [q|] eqn:El; [|exact Gres].
+  assert (Hhq : m_hq m = hq_items q) by (unfold m_hq; rewrite El; auto).
+  set (q1 := hq_removelock q (c_lockid (l_cmd l1))).
+  set (g2 := g <| g_lk := true |>) in *.
+  assert (Hmap1 : map_ok s1 q1).
+  { intros items mp Hs id r1 H1. unfold q1, hq_removelock in Hs. destruct (hq_scale q) as [[it0 mp0]|] eqn:Es; [|congruence].
+    cbn in Hs. injection Hs as Hi Hmp. rewrite <- Hmp, <- Hi in *. rewrite aget_adel in H1.
+    destruct (c_lockid (l_cmd l) =? id) eqn:E; [discriminate|].
+    destruct (B10 q eq_refl it0 mp0 Es id r1 H1) as [D1 [D2 D3]].
+    assert (r1 <> r). { intros ->. rewrite (getl_some _ _ _ Hr) in D2. lia. }
+    rewrite Hgl1 by auto. auto. }
+  assert (Hrel : forall r0, (occ r0 (cur_list m ++ hq_items q1) + occ r0 (g_ph g2) = occ r0 (phl s1 g2))%nat).
+  { intros r0. unfold phl, g2. gs. rewrite Hpw, Hk, Hp. change (getm s1 k) with (getm s k). rewrite (getm_some _ _ _ Hm).
+    unfold q1. rewrite hq_items_removelock. unfold holders. rewrite Hhq. simpl occ. lia. }
+  rewrite hq_size_items.
+  destruct (drop_dead_heads_ginv (S (length (hq_items q1))) s1 g2 k q1 (cur_list m) G2) as [ph' P]; unfold g2; gs; auto.
+  { apply hq_removelock_capok. exact (proj1 Bc q eq_refl). }
+  fold q1. destruct (drop_dead_heads (S (length (hq_items q1))) s1 q1) as [s' q']. fold g2 in P.
+  destruct P as [P1 [P2 [Pc [P3 P4]]]].
+  destruct (qframe_mgr_some s1 s' k m P2 Hm1) as [n Hm'].
+  set (mo := m <| m_ref := n |>) in *. rewrite (updm_some _ _ _ _ Hm').
+  set (m' := mo <| m_locks := Some q' |>).
+  assert (Hhm' : holders m' = cur_list m ++ hq_items q') by (destruct m; reflexivity).
+  assert (Hgmo : getm s' k = mo) by (apply getm_some; auto).
+  assert (Hhmo : holders mo = holders m) by (destruct m; reflexivity).
+  assert (Hrel' : forall r0, (occ r0 (holders m') + occ r0 ph' = occ r0 (holders mo))%nat).
+  { intros r0. specialize (P3 r0). unfold phl, g2 in P3. gs. rewrite Hpw, Hk, Hgmo in P3. rewrite Hhm'. exact P3. }
+  eapply ginv_geq; [apply (install_h s' _ k mo m' P1 Hm'); unfold g2; gs; auto|].
+  - intros r0. rewrite Hq. simpl occ. specialize (Hrel' r0). lia.
+  - rewrite Hq. simpl. tauto.
+  - intros c Hc. assert (Hc0 : m_cur m = Some c) by (destruct m; exact Hc).
+    assert (Hst : aget (store s') c <> None).
+    { apply (mo_refs _ _ _ _ (gi_mgr _ _ P1 k mo Hm')). unfold phk, g2. gs. rewrite <- Hk, N.eqb_refl. rewrite occ_app.
+      specialize (Hrel' c). rewrite Hhm', occ_app in Hrel'. unfold cur_list in Hrel'. rewrite Hc0 in Hrel'. simpl occ in Hrel'. rewrite N.eqb_refl in Hrel'.
+      pose proof (proj1 (occ_nodup _) B4 c) as N0. rewrite Hhmo in *. lia. }
+    rewrite (qframe_locked s1 s' c P2 Hst). rewrite Hgl1 by (apply Hcr; auto). apply B7; auto.
+  - intros Hc. assert (Hc0 : m_cur m = None) by (destruct m; exact Hc).
+    specialize (B8 Hc0). unfold m_hq, m'. assert (E : m_locks (mo <| m_locks := Some q' |>) = Some q') by (destruct mo; reflexivity). rewrite E.
+    apply occ_all_zero_nil. intros r0. specialize (Hrel' r0). rewrite Hhm', Hhmo in Hrel'. unfold holders, cur_list in Hrel'.
+    rewrite Hc0, B8 in Hrel'. simpl in Hrel'. lia.
+  - intros q0 Hq0. assert (q0 = q') by (destruct mo; cbn in Hq0; congruence). subst q0. exact P4.
+  - intros q0 Hq0. assert (q0 = q') by (destruct mo; cbn in Hq0; congruence). subst q0. exact Pc.
+  - match goal with |- _ = _ <| g_dl := ?e |> => replace e with (g_dl g)%Z; [destruct g; gs; subst; reflexivity|] end.
+    unfold g2; gs; rewrite Hq; simpl; lia.
+Qed.
